@@ -1384,6 +1384,91 @@ func runC02(c *Ctx) {
 	}
 	pairShape(r.pairMapped, fLocalIPs, fMappedIPs, r.out)
 	pairShape(r.pairLocal, fMappedIPs, fLocalIPs, r.in)
+	// the two address lists are built in one loop, index by index, and handed to the NAT as they were built: between
+	// the appends and the configuration nothing else receives either list (a sort or filter of one of them breaks
+	// the pairing for every 1:1 pair but the first)
+	if sr := p.Func("vnet", "Router", "setRouter"); sr != nil {
+		op := c.Obl("R10", fname(sr), "the paired lists of mapped and local addresses reach the NAT configuration exactly as the address loop built them: no function other than append/len receives either list in between", 2)
+		family := map[ssa.Value]bool{}
+		cells := map[ssa.Value]bool{}
+		var back func(v ssa.Value, d int)
+		back = func(v ssa.Value, d int) {
+			v = strip(v)
+			if v == nil || family[v] || d > 20 {
+				return
+			}
+			family[v] = true
+			switch x := v.(type) {
+			case *ssa.Phi:
+				for _, e := range x.Edges {
+					back(e, d+1)
+				}
+			case *ssa.UnOp:
+				if al, ok := x.X.(*ssa.Alloc); ok && x.Op == token.MUL {
+					cells[al] = true
+					for _, sv := range cellStores(al) {
+						back(sv, d+1)
+					}
+				}
+			case *ssa.Call:
+				if b, ok := x.Call.Value.(*ssa.Builtin); ok && b.Name() == "append" {
+					back(x.Call.Args[0], d+1)
+				}
+			case *ssa.Slice:
+				back(x.X, d+1)
+			}
+		}
+		nCfg := 0
+		instrsOfU(sr, func(in ssa.Instruction) {
+			if st, ok := in.(*ssa.Store); ok {
+				if fr, ok := asFieldAddr(st.Addr); ok && fr.SName == "vnet.natConfig" && (fr.Field == fMappedIPs || fr.Field == fLocalIPs) {
+					nCfg++
+					op.Site(in.Pos(), "natConfig.%s", fr.Field)
+					back(st.Val, 0)
+				}
+			}
+		})
+		if nCfg < 2 {
+			op.Undecide("the NAT configuration's address lists are not set in %s", fname(sr))
+		}
+		inFamily := func(v ssa.Value) bool {
+			v = strip(v)
+			if family[v] {
+				return true
+			}
+			if u, ok := v.(*ssa.UnOp); ok && u.Op == token.MUL && cells[u.X] {
+				return true
+			}
+			return false
+		}
+		for _, g := range withClosures(sr) {
+			instrsOf(g, func(in ssa.Instruction) {
+				ci, ok := in.(ssa.CallInstruction)
+				if !ok {
+					return
+				}
+				if b, isB := ci.Common().Value.(*ssa.Builtin); isB {
+					switch b.Name() {
+					case "append", "len", "cap":
+						return
+					}
+				}
+				for _, a := range ci.Common().Args {
+					if inFamily(a) {
+						op.Fail(in.Pos(), "%s receives one of the paired address lists before the NAT is configured: reordering or filtering one list alone breaks the 1:1 pairing", callName(ci))
+					}
+					// a closure over the list variable (sort.Slice(list, func…))
+					if mc, isMC := strip(a).(*ssa.MakeClosure); isMC {
+						for _, bnd := range mc.Bindings {
+							if cells[bnd] {
+								op.Fail(in.Pos(), "%s is given a closure over one of the paired address lists before the NAT is configured", callName(ci))
+							}
+						}
+					}
+				}
+			})
+		}
+	}
 	oneToOne := func(f *ssa.Function, setter, other, addrMeth string, pair *ssa.Function) {
 		n := 0
 		for _, ev := range rewriteEvents(f, setter) {
